@@ -121,6 +121,7 @@ def gen_C13(g, tier):
     for i in range(4):
         for j in range(4):
             cs.append(Case('dirac %d %d' % (i, j), 'cmp', 'dirac'))
+    cs.append(Case('o.c13.earlydirac', 'orc', 'dirac-requested-during-static-initialisation'))
     for _ in range(5 * reps):
         cs.append(Case('cross %s' % frs(g.rats(6)), 'cmp', 'cross'))
         cs.append(Case('o.c13.assoc %s' % frs(g.rats(6 + 12 + 8 + 12 + 4 + 2)), 'orc', 'laws'))
